@@ -120,6 +120,7 @@ RULES = {
     'R6': 'Vec::last().copied() -> same call on a shim helper vec_last(&v) (contract: last element or None)',
     'M6': 'const NAME: f64|usize|.. = LITERAL; (module level or in an impl block) is folded into its uses NAME / Self::NAME and the item dropped',
     'P1': 'function parameters renamed (same number of parameters, fresh names): the contract text of the function follows the rename',
+    'R15': 'let mut i = A; while i < B { S; i += 1; }  ->  for i in A..B { S }   (only if S neither assigns i nor contains continue/break/return, B does not mention i, and i is not read after the loop)',
     'R14': 'PAT => return [e],  ->  PAT => { return [e]; },   (a return in match-arm position becomes a block)',
 }
 
@@ -170,6 +171,30 @@ def rewrite_body(s, applied):
                 break
         if not found: break
     s = sub('R6', r'self\.(\w+)\.last\(\)\.copied\(\)', r'vec_last(&self.\1)', s)
+    # R15: the canonical counting `while` loop -> `for` (same index values in the same order); side conditions checked syntactically
+    pos = 0
+    while True:
+        m = re.compile(r'let mut (\w+)(?:\s*:\s*usize)?\s*=\s*([^;{}]+);\s*while \1 < ([^{}]+?)\s*\{').search(s, pos)
+        if not m: break
+        pos = m.end()
+        var, lo, hi = m.group(1), m.group(2).strip(), m.group(3).strip()
+        ob = m.end() - 1
+        cb = match_close(s, ob)
+        inner = s[ob + 1:cb]
+        tm = re.search(r'\b%s\s*\+=\s*1\s*;\s*$' % var, inner)
+        if not tm: continue
+        core = inner[:tm.start()]
+        if re.search(r'\b%s\s*(?:[-+*/]?=)(?!=)' % var, core) or re.search(r'\b(?:continue|break|return)\b', core): continue
+        if re.search(r'\b%s\b' % var, hi): continue
+        # the index must not be read after the loop: scan to the end of the enclosing block
+        d = 0; j = cb + 1
+        while j < len(s) and d >= 0:
+            if s[j] == '{': d += 1
+            elif s[j] == '}': d -= 1
+            j += 1
+        if re.search(r'\b%s\b' % var, s[cb + 1:j]): continue
+        s = s[:m.start()] + 'for %s in %s..%s {' % (var, lo, hi) + core.rstrip() + '\n' + s[cb:]
+        applied.add('R15'); pos = m.start()
     # R14: a `return` in match-arm position becomes a block, so that it stands at statement level like every other `return`
     s = sub('R14', r'=>\s*return\b[ \t]*([\w\.\*&:]*)[ \t]*,', r'=> { return \1; },', s)
     s = sub('R14', r'=>\s*return\b[ \t]*([\w\.\*&:]*)\s*\}', r'=> { return \1; } }', s)
